@@ -14,8 +14,9 @@ Correspondence streams (canonical digest of BOTH indexes compared with the model
   wide          : all sequences <= 2 (quick) / <= 3 (thorough) over a wider alphabet
                   (several destinations at once, router+destinations deletion, status
                   updates, unknown network None, empty lists, refused call)
-  random        : random sequences of length 300, lockstep after every operation,
-                  plus get_router_info lookups
+  random        : random sequences of length 300, lockstep after every operation
+  random-get    : one get_router_info lookup after every operation of those sequences
+                  (router address + its dnets), against the model's getRouterInfo
   node-enum     : the same alphabet delivered as real NPDUs (I-Am-Router-To-Network,
                   routed traffic with SADR, Network-Number-Is) and
                   delete_router_references calls into a real
